@@ -120,7 +120,7 @@ def gen_jobs(ctx):
         for k in range(rnd.randint(1, 3)):
             calls += [{"op": "with", "vec": "cv", "vals": [rnd.choice(strings), str(k)], "as": "c%d" % k}, {"op": "inc_by", "obj": "c%d" % k, "v": F(abs(rnd.choice([x for x in FLOATS if x == x and x >= 0])))}]
         calls += [{"op": "gauge", "as": "g", "opts": {"name": "g", "help": rnd.choice(strings) or "h"}}, {"op": "set", "obj": "g", "v": F(rnd.choice(FLOATS))}]
-        calls += [{"op": "histogram_vec", "as": "hv", "opts": {"name": "hv", "help": "h\\n\"", "buckets": [F(-1.0), F(0.0), F(0.5), F(1e21)]}, "labels": ["z"]}, {"op": "with", "vec": "hv", "vals": [rnd.choice(strings)], "as": "h0"}]
+        calls += [{"op": "histogram_vec", "as": "hv", "opts": {"name": "hv", "help": "h\\n\"", "buckets": ([F(float("-inf"))] if i % 3 == 0 else []) + [F(-1.0), F(0.0), F(0.5), F(1e21)]}, "labels": ["z"]}, {"op": "with", "vec": "hv", "vals": [rnd.choice(strings)], "as": "h0"}]
         calls += [{"op": "observe", "obj": "h0", "v": F(rnd.choice(FLOATS))} for _ in range(rnd.randint(0, 4))]
         calls += [{"op": "int_gauge", "as": "ig", "opts": {"name": "ig", "help": "i"}}, {"op": "set", "obj": "ig", "v": -7}]
         calls += [{"op": "register", "reg": "r", "obj": o} for o in ("cv", "g", "hv", "ig")]
@@ -129,11 +129,27 @@ def gen_jobs(ctx):
     for i, j in enumerate(jobs):
         calls = list(j.get("setup", []))
         src = j["src"]
+        # earlier calls on the same thread that FAIL part-way (a writer that runs full) must leave nothing behind
+        for k in sorted({rnd.randint(0, 40), rnd.randint(10, 200), rnd.randint(0, 2000)}):
+            calls.append(dict({"op": "text_encode", "mode": "failing_writer", "after": k}, **src))
+        calls.append(dict({"op": "text_encode", "mode": "chunked", "after": rnd.choice([1, 3, 7, 64])}, **src))
         calls.append(dict({"op": "families_json"}, **src))
         calls.append(dict({"op": "text_encode", "mode": "encode", "prefix": "# preé\n"}, **src))
         calls.append(dict({"op": "text_encode", "mode": "utf8", "prefix": "x"}, **src))
         calls.append(dict({"op": "text_encode", "mode": "to_string"}, **src))
         out.append({"id": i, "calls": calls, "tag": j["tag"]})
+    # encode, edit the same family objects in place, encode again (state cached inside the data model must not leak)
+    for i in range(10 if ctx.quick else 200):
+        t = rnd.choice(["COUNTER", "GAUGE", "HISTOGRAM", "SUMMARY"])
+        strings = [rand_string(rnd, rnd.randint(0, 4)) for _ in range(3)] + ["", "v"]
+        lit = [{"name": "ed%d" % k, "help": rnd.choice(strings), "type": t, "metrics": [lit_metric(rnd, t, strings, FLOATS, rnd.randint(0, 2)) for _ in range(rnd.randint(1, 2))]} for k in range(rnd.randint(1, 3))]
+        calls = [{"op": "families", "as": "F", "lit": lit}, {"op": "text_encode", "fam": "F", "mode": "to_string"},
+                 {"op": "fam_edit", "fam": "F", "idx": 0, "rename": "renamed_family_with_a_longer_name", "add_label": ["zz", rnd.choice(strings)], "help": rnd.choice(strings)},
+                 {"op": "fam_edit", "fam": "F", "idx": 0, "push_family": {"name": "pushed", "help": "h", "type": "COUNTER", "metrics": [{"labels": [], "counter": F(128.0)}]}},
+                 {"op": "text_encode", "fam": "F", "mode": "chunked", "after": 5},
+                 {"op": "families_json", "fam": "F"}, {"op": "text_encode", "fam": "F", "mode": "encode", "prefix": "# preé\n"},
+                 {"op": "text_encode", "fam": "F", "mode": "utf8", "prefix": "x"}, {"op": "text_encode", "fam": "F", "mode": "to_string"}]
+        out.append({"id": len(out), "calls": calls, "tag": "edited-after-encode"})
     return out
 
 
@@ -151,6 +167,11 @@ def judge_outputs(ctx, jobs, res):
             ctx.violation("encode-failed", "a valid family list was refused: %s" % [x for x in (fj, e1, e2, e3) if "ok" not in x][0], rp)
             continue
         b1, b2, b3 = bytes.fromhex(e1["ok"]["hex"]), bytes.fromhex(e2["ok"]["hex"]), bytes.fromhex(e3["ok"]["hex"])
+        ch = rs[-5]
+        if j["calls"][-5].get("mode") == "chunked":
+            if "ok" not in ch or bytes.fromhex(ch["ok"]["hex"]) != b3:
+                ctx.violation("chunked-writer-differs", "a writer that accepts only a few bytes per call received different bytes: %s" % json.dumps(ch)[:200], rp)
+                continue
         p1, p2 = "# preé\n".encode(), b"x"
         if not b1.startswith(p1) or not b2.startswith(p2):
             ctx.violation("not-append-only", "the encoder did not only append to its output buffer", rp)
